@@ -17,7 +17,9 @@ reg("C10",
          "position (18 %); 0-8 preprocessor threads or no preprocessor; per-call delays of preprocess / OpenObject / "
          "FileExists / handler from the seed (profiles: none, random, first block of each file slowest, slow opens, slow "
          "handler, mixed heavy); outside Shutdown(nil) after the k-th delivery in 25 % of the runs; non-trivial = at least "
-         "one delivery; distinct by input",
+         "one delivery; distinct by input; 6 % of the layouts get one extra stored block whose number goes BACKWARDS (a "
+         "malformed bundle, outside the quantifier: class suffix /backwards; exempt from the suffix clause c10_suffix_y1, "
+         "compared by the correspondence and by c10_check)",
     trusted_base=["Go channels (FIFO, close, select), goroutine scheduling and shutter.Shutdown (treated as one atomic step) "
                   "are modelled in Model/Pipeline.v from their documented semantics, not verified; dstore / dbin / protobuf "
                   "decoding of undamaged bundles is exercised by every case, not modelled",
